@@ -371,7 +371,7 @@ def parse_block(body):
     cur = None
     for line in body.split("\n"):
         s = line.strip()
-        if s.startswith("@entry") or s.startswith("@loop_end") or s.startswith("@loop_start") or s.startswith("@loop") or s.startswith("@before") or s.startswith("@after") or s.startswith("@closure") \
+        if s.startswith("@entry") or s.startswith("@after_loop") or s.startswith("@loop_end") or s.startswith("@loop_start") or s.startswith("@loop") or s.startswith("@before") or s.startswith("@after") or s.startswith("@closure") \
                 or s.startswith("@rewrite") or s.startswith("@hoist") or s.startswith("@try"):
             parts = shlex.split(s)
             cur = dict(kind=parts[0][1:], args=parts[1:], text=[])
@@ -568,6 +568,14 @@ def gen_fn(repo, d, body, report):
                       f"`{sub['args'][0]}` => `{sub['args'][1]}`")
             stats[o.get("rule", "REWRITE")] = stats.get(o.get("rule", "REWRITE"), 0) + 1
     rewrite_for_loops(src, f["body_open"] + 1, f["body_close"], edits, stats)
+    for sub in subs:
+        if sub["kind"] == "after_loop":
+            # ghost text directly after loop k as a whole (structural anchor; added after R4 so that it follows the closers R4 appends)
+            k = int(sub["args"][0])
+            if k >= len(loops):
+                raise LostAnchor(f"{d['file']}::{d['name']}: loop ordinal {k} not found ({len(loops)} loops)")
+            lc = toks[loops[k]["body_close"]]
+            edits.add(lc.end, lc.end, "\n" + "\n".join(sub["text"]).rstrip() + "\n", "GHOST", f"after loop {k}")
     lo_off, hi_off = toks[f["start"]].start, toks[f["body_close"]].end
     if d.get("attr"):
         edits.add(lo_off, lo_off, d["attr"] + "\n", "SPEC", "verifier attribute")
